@@ -27,6 +27,9 @@ func backoffInterval(min, max time.Duration) GetRetryIntervalFunc {
 	return func(resp *Response, attempt int) time.Duration {
 		temp := math.Min(capLevel, base*math.Exp2(float64(attempt)))
 		halfTemp := int64(temp / 2)
+		if halfTemp <= 0 { // interval too small to halve: no jitter (rand.Int63n panics for n <= 0)
+			return time.Duration(temp)
+		}
 		sleep := halfTemp + rand.Int63n(halfTemp)
 		return time.Duration(sleep)
 	}
